@@ -95,7 +95,7 @@ func (a *Analysis) snap(site *Site, st *State, recv *Term, args []*Term, val, id
 		return
 	}
 	site.seen[key] = true
-	sn := &Snap{F: st.F.clone(), Killed: map[string]int{}, Events: map[string]bool{}, Recv: recv, Args: args, Val: val, Idx: idx, Trail: strings.Join(st.Trail, " ; ")}
+	sn := &Snap{Sticky: st.Sticky, F: st.F.clone(), Killed: map[string]int{}, Events: map[string]bool{}, Recv: recv, Args: args, Val: val, Idx: idx, Trail: strings.Join(st.Trail, " ; ")}
 	for k, v := range st.Killed {
 		sn.Killed[k] = v
 	}
@@ -564,6 +564,12 @@ func retMode(fn *FuncInfo) string {
 	if sig.Results().Len() == 2 && sig.Results().At(1).Type().String() == "error" {
 		return "valerr"
 	}
+	if sig.Results().Len() == 1 {
+		switch sig.Results().At(0).Type().Underlying().(type) {
+		case *types.Interface, *types.Pointer:
+			return "ptr"
+		}
+	}
 	return ""
 }
 
@@ -590,6 +596,11 @@ func classifyRet(mode string, e *State) string {
 	case "bool":
 		if len(e.Ret) > 0 && e.Ret[0] != nil && e.Ret[0].K == KConst && (e.Ret[0].S == "true" || e.Ret[0].S == "false") {
 			return e.Ret[0].S
+		}
+		return "?"
+	case "ptr":
+		if len(e.Ret) == 1 {
+			return cls(e.Ret[0])
 		}
 		return "?"
 	case "valerr":
@@ -636,6 +647,8 @@ func (a *Analysis) summary(fn *FuncInfo, ctx []Lit) *Summary {
 	var s *Summary
 	if boolResult(fn) {
 		s = &Summary{Classes: []*ExitClass{{Ret: "true", Kills: map[string]int{}, Events: map[string]bool{}}, {Ret: "false", Kills: map[string]int{}, Events: map[string]bool{}}}}
+	} else if retMode(fn) == "ptr" {
+		s = &Summary{Classes: []*ExitClass{{Ret: "nn", Kills: map[string]int{}, Events: map[string]bool{}}, {Ret: "nil", Kills: map[string]int{}, Events: map[string]bool{}}}}
 	} else if retMode(fn) == "valerr" {
 		s = &Summary{Classes: []*ExitClass{{Ret: "nn,nil", Kills: map[string]int{}, Events: map[string]bool{}}, {Ret: "nil,nn", Kills: map[string]int{}, Events: map[string]bool{}}}}
 	} else {
@@ -705,9 +718,12 @@ func (a *Analysis) computeSummary(fn *FuncInfo, ctx []Lit) *Summary {
 	// an exit with unknown classification is merged into every definite class of its mode
 	if q, ok := classes["?"]; ok && mode != "" {
 		var defs []string
-		if mode == "bool" {
+		switch mode {
+		case "bool":
 			defs = []string{"true", "false"}
-		} else {
+		case "ptr":
+			defs = []string{"nn", "nil"}
+		default:
 			defs = []string{"nn,nil", "nil,nn"}
 		}
 		for _, r := range defs {
